@@ -20,7 +20,7 @@ Import ListNotations.
 Open Scope string_scope.
 
 Inductive node :=
-| Leaf (id : N) (pb : bool)          (* pb: a dag-pb node (UnixFS file, symlink); false: a raw block *)
+| Leaf (id : N) (bytes : bool)       (* bytes: reified as a bytes node (UnixFS file, raw block); false: a symlink (a dag-pb node without links) *)
 | Dir (id : N) (sharded : bool) (entries : list (string * node)).
 
 Definition nid (n : node) : N :=
@@ -58,9 +58,9 @@ Inductive res :=
 | RErr.                                    (* any other error *)
 
 Record flags := { f_leaf_last : bool }.
-(** defect switch 1: when everything but the last segment resolves to something that
-    is not a directory (a file), the final LookupBySegment fails with the node's own
-    error (wrong kind / not supported) instead of ErrNoLink *)
+(** defect switch 1: when everything but the last segment resolves to a bytes node (a
+    file or raw block), the final LookupBySegment fails with the node's own wrong-kind
+    error instead of ErrNoLink *)
 Definition flags_off : flags := {| f_leaf_last := false |}.
 Definition flags_on : flags := {| f_leaf_last := true |}.
 
@@ -79,7 +79,7 @@ Definition resolve_to_last (fl : flags) (root : node) (segs : list string) : res
             | Some c => ROk (nid c) []
             | None => RNoLink name (nid parent)
             end
-        | Leaf _ _ => if f_leaf_last fl then RErr else RNoLink name (nid parent)
+        | Leaf _ b => if f_leaf_last fl && b then RErr else RNoLink name (nid parent)
         end
   end.
 
